@@ -111,6 +111,46 @@ CHECKS = {
         "Sub-operations are scripted stubs of send_c_store.",
         "3/C22",
     ),
+    "C14": (
+        "model_checking",
+        "sim",
+        "deviation-bounded exhaustive exploration of the interleavings of N+1 concurrent association negotiations against a real acceptor AE",
+        "A real acceptor AE with maximum_associations = L and L+1 (thorough also L+2) real requestors connecting at once, plus staggered arrivals while an earlier association is being released: every schedule with at most D deviations (D=1 quick, 2 thorough) of the server, negotiation, provider and user threads; at every EVT_ESTABLISHED the simultaneously established acceptor associations are counted against L and every rejection must carry (transient, presentation, local-limit-exceeded).",
+        "Same trusted base as C05/C06; over-rejection while negotiations overlap is allowed by the property.",
+        "3/C14",
+    ),
+    "C16": (
+        "exploration",
+        "enum",
+        "exhaustive enumeration of message types x data-set parameter shapes through the real conversion/fragmentation/reassembly, plus end-to-end runs of every send_* operation between two real AEs under the simulator",
+        "All 23 message types with absent / empty / non-empty data set: the command set must announce a data set exactly when data-set fragments are sent and the real decode_msg must complete the message.  52 end-to-end scenarios (10 public send_* operations x request data set x response data set incl. empty pydicom Datasets and None) between two real AEs: the peer's handler is invoked, the SCU gets its status, nobody waits for the DIMSE timeout, the association survives.",
+        "End-to-end layer uses the simulator (default schedule; thorough: <= 1 deviation).",
+        "3/C16",
+    ),
+    "C18": (
+        "exploration",
+        "enum",
+        "bounded-exhaustive enumeration of accepted-context sets x send operations on a real Association with a recording DIMSE provider",
+        "Accepted-context sets of size 1, 2 (thorough 3) over four abstract syntaxes, five transfer syntaxes and four role combinations, against C-STORE of CT/MR datasets with each of five file-meta transfer syntaxes, C-FIND and N-GET with the UPS substitution: any message that is sent must be on an accepted context with the right abstract syntax, the SCU role, a compatible transfer syntax (identical, or both uncompressed with equal byte order) and bytes that decode under the context's syntax to the original dataset; otherwise the call must raise before sending.",
+        "Transfer-syntax properties transcribed from PS3.5 Annex A; datasets built from scratch.",
+        "3/C18",
+    ),
+    "C19": (
+        "exploration",
+        "enum",
+        "complete enumeration of context IDs 0..255 x request types x accepted sets through the real request-dispatch paths",
+        "For three accepted-context sets every context ID 0..255 is combined with all 11 request types through the real Association._serve_request and with C-STORE sub-operation requests through the real _wrap_get_move_responses/_c_store_scp path, with recording handlers bound to every C-/N- intervention event: an ID outside the accepted set must invoke no handler and receive no success / pending / warning response.",
+        "Requests are delivered as decoded primitives; DIMSE provider is a recording double.",
+        "3/C19",
+    ),
+    "C23": (
+        "model_checking",
+        "sim",
+        "enumeration of every arrival point and message-ID relation of C-CANCEL relative to two consecutive operations on the real acceptor, with deviation-bounded schedule exploration",
+        "A byte-level raw peer runs two consecutive C-FIND / C-GET operations (equal or different message IDs) whose handler polls is_cancelled before each yield, and sends C-CANCEL with the ID of the running, the other or neither operation while idle before / between / after the operations and at every poll (handler held until the provider thread has taken the cancel in), plus 9..12 stale cancels; default schedule for all 166 scenarios and every schedule with <= 1 deviation for the C-FIND n=1 family.  A handler may see True only at the poll following a cancel with its own ID that arrived while it ran.",
+        "Same trusted base as C05/C06.",
+        "3/C23",
+    ),
     "C26": (
         "model_checking",
         "sim",
